@@ -178,6 +178,25 @@ func (d *regDriver) Call(ip *absint.Interp, site ssa.CallInstruction, args []abs
 		return nil, false
 	}
 	if recv := cal.Signature.Recv(); recv != nil {
+		if n := core.NamedOf(recv.Type()); n != nil && n.Obj().Pkg() != nil && n.Obj().Pkg().Path() == core.Mod+"/util/list" && len(args) >= 2 {
+			// the in-creation set used through its concrete type instead of the list.Set interface
+			if cell, ok := d.cellOf(args[0]); ok {
+				switch cal.Name() {
+				case "Put":
+					d.checkKey(args[1], site)
+					d.st[cell] = "1"
+					return nil, true
+				case "Remove":
+					d.checkKey(args[1], site)
+					delete(d.st, cell)
+					return nil, true
+				case "Exists":
+					d.checkKey(args[1], site)
+					return absint.Bool(d.st[cell] != ""), true
+				}
+				panic(&absint.Undecided{Msg: "set operation " + cal.Name() + " is not in the cell model"})
+			}
+		}
 		if n := core.NamedOf(recv.Type()); n != nil && n.Obj().Pkg() != nil && n.Obj().Pkg().Path() == core.Mod+"/util/sync2" && n.Obj().Name() == "Map" {
 			cell, ok := d.cellOf(args[0])
 			if !ok {
